@@ -216,6 +216,7 @@ func runC18(c *core.Ctx) {
 		c.Undecided("C18.lines", "formats", token.NoPos, fmt.Sprintf("only %d Fprintf formats found in meta/idl/idl.go", nfmt))
 	}
 	ruleUIDReadBack(c)
+	ruleStructNamesAsStored(c, "C18.lines")
 
 	// ------------------------------------------------------------ registration
 	c.Doc("C18.registration", "RegisterTo of composite types registers every component type; the printer registers what it printed on every successful path, and every signature it parsed", 8)
@@ -670,4 +671,156 @@ func ruleNamesComparedAsStored(c *core.Ctx, rule string) {
 	if n == 0 {
 		c.Undecided(rule, "meta/signature.TypeSet.Names", token.NoPos, "no comparison of a declared name found")
 	}
+}
+
+// ruleStructNamesAsStored: the printer of a structure declaration hands the
+// structure's name and the names of its members to the output as they are
+// stored.  Followed on the values (through concatenation and through the
+// private helpers of the package the name is handed to): a name that goes
+// through any other function returning a string (a cleaner written for
+// parameter names, a case conversion) is read back differently, and struct and
+// field names are part of the signatures the round trip must preserve.
+func ruleStructNamesAsStored(c *core.Ctx, rule string) {
+	isSigType := func(t types.Type, name string) bool {
+		if p, ok := t.(*types.Pointer); ok {
+			t = p.Elem()
+		}
+		return core.TypeIs(t, "meta/signature", name)
+	}
+	n := 0
+	for _, root := range srcFuncsOfPkg(c, "meta/idl") {
+		if root.Parent() != nil || c.IsTestFile(root) {
+			continue
+		}
+		takes := false
+		for _, p := range root.Params {
+			if isSigType(p.Type(), "StructType") {
+				takes = true
+			}
+		}
+		if !takes || !reachesFmt(root) {
+			continue
+		}
+		for _, b := range root.Blocks {
+			for _, in := range b.Instrs {
+				var v ssa.Value
+				var owner string
+				switch x := in.(type) {
+				case *ssa.FieldAddr:
+					st, _ := x.X.Type().Underlying().(*types.Pointer).Elem().Underlying().(*types.Struct)
+					if st != nil && st.Field(x.Field).Name() == "Name" {
+						for _, nm := range []string{"StructType", "MemberType"} {
+							if isSigType(x.X.Type(), nm) {
+								owner = nm
+							}
+						}
+					}
+					if owner != "" {
+						for _, r := range core.Referrers(x) {
+							if ld, ok := r.(*ssa.UnOp); ok && ld.Op == token.MUL {
+								v = ld
+							}
+						}
+					}
+				case *ssa.Field:
+					st, _ := x.X.Type().Underlying().(*types.Struct)
+					if st != nil && st.Field(x.Field).Name() == "Name" {
+						for _, nm := range []string{"StructType", "MemberType"} {
+							if isSigType(x.X.Type(), nm) {
+								owner = nm
+							}
+						}
+					}
+					if owner != "" {
+						v = x
+					}
+				}
+				if v == nil {
+					continue
+				}
+				n++
+				key := fmt.Sprintf("struct-names@%s/%s.Name#%d", core.FuncKey(root), owner, n)
+				bad := nameThroughFunction(v, 0, map[ssa.Value]bool{})
+				c.Check(bad == "", rule, key, in.Pos(), "the name reaches the output as stored",
+					"the "+owner+" name is handed to "+bad+" before it is printed: a name that function changes (a Go keyword, a different case) does not parse back to itself, so the struct or field name — part of every signature that uses the struct — does not survive the round trip")
+			}
+		}
+	}
+	if n < 2 {
+		c.Undecided(rule, "struct-names", token.NoPos, fmt.Sprintf("only %d name loads found in the structure printer of meta/idl", n))
+	}
+}
+
+func reachesFmt(fn *ssa.Function) bool {
+	for _, call := range core.Calls(fn) {
+		if f := call.Common().StaticCallee(); f != nil && f.Pkg != nil && f.Pkg.Pkg.Path() == "fmt" {
+			return true
+		}
+	}
+	return false
+}
+
+// nameThroughFunction follows v forward; returns the name of the first
+// function other than fmt's printers (and private helpers of meta/idl, which
+// are entered) that takes it and returns a string, or "".
+func nameThroughFunction(v ssa.Value, depth int, seen map[ssa.Value]bool) string {
+	if depth > 4 || seen[v] {
+		return ""
+	}
+	seen[v] = true
+	for _, r := range core.Referrers(v) {
+		switch x := r.(type) {
+		case *ssa.BinOp:
+			if d := nameThroughFunction(x, depth, seen); d != "" {
+				return d
+			}
+		case *ssa.Phi:
+			if d := nameThroughFunction(x, depth, seen); d != "" {
+				return d
+			}
+		case *ssa.ChangeType:
+			if d := nameThroughFunction(x, depth, seen); d != "" {
+				return d
+			}
+		case *ssa.Convert:
+			if d := nameThroughFunction(x, depth, seen); d != "" {
+				return d
+			}
+		case ssa.CallInstruction:
+			cc := x.Common()
+			f := cc.StaticCallee()
+			if f == nil {
+				continue
+			}
+			if f.Pkg != nil && f.Pkg.Pkg.Path() == "fmt" {
+				continue
+			}
+			idx := -1
+			for i, a := range cc.Args {
+				if a == v {
+					idx = i
+				}
+			}
+			if idx < 0 {
+				continue
+			}
+			returnsString := false
+			res := f.Signature.Results()
+			for i := 0; i < res.Len(); i++ {
+				if b, ok := res.At(i).Type().Underlying().(*types.Basic); ok && b.Info()&types.IsString != 0 {
+					returnsString = true
+				}
+			}
+			if f.Pkg != nil && f.Pkg.Pkg.Path() == core.Module+"/meta/idl" && idx < len(f.Params) && len(f.Blocks) > 0 {
+				if d := nameThroughFunction(f.Params[idx], depth+1, seen); d != "" {
+					return d
+				}
+				continue
+			}
+			if returnsString {
+				return core.FuncKey(f)
+			}
+		}
+	}
+	return ""
 }
